@@ -17,6 +17,8 @@ from . import astutil as A
 # ---------------------------------------------------------------------------
 # exception hierarchy
 # ---------------------------------------------------------------------------
+REGISTRIES = {"AVP_DICTIONARY", "AVP_VENDOR_DICTIONARY", "all_commands"}
+
 BUILTIN_BASES = {
     "BaseException": None,
     "Exception": "BaseException",
@@ -91,6 +93,8 @@ FAULT_METHOD_PRIMS = {
     "decode": {"UnicodeDecodeError"},
     "start": {"RuntimeError"},
 }
+FAULT_FUNC_PRIMS = {"socket.socket": {"OSError"}, "sctp.sctpsocket_tcp": {"OSError"},
+                    "sctp.sctpsocket": {"OSError"}}
 CODEC_ENTRIES = {"as_bytes", "from_bytes"}
 
 
@@ -335,8 +339,14 @@ class Effects:
             return (self._expr(st.test, f) | self._block(st.body, f, caught)
                     | self._block(st.orelse, f, caught))
         if isinstance(st, (ast.For, ast.AsyncFor)):
-            return (self._expr(st.iter, f) | self._block(st.body, f, caught)
-                    | self._block(st.orelse, f, caught))
+            out = (self._expr(st.iter, f) | self._block(st.body, f, caught)
+                   | self._block(st.orelse, f, caught))
+            tgt = self._live_iter_target(st.iter)
+            if tgt is not None and self._resizes(st.body, tgt):
+                out.add("RuntimeError")
+                self._note(f, st, ["RuntimeError"],
+                           f"`{tgt}` is resized while being iterated (dictionary changed size during iteration)")
+            return out
         if isinstance(st, (ast.With, ast.AsyncWith)):
             out = set()
             for it in st.items:
@@ -361,6 +371,62 @@ class Effects:
                 out |= self._expr(child, f)
         return out
 
+    @staticmethod
+    def _live_iter_target(it: ast.expr):
+        e = it
+        if isinstance(e, ast.Call) and isinstance(e.func, ast.Attribute) \
+                and e.func.attr in ("items", "keys", "values") and not e.args:
+            e = e.func.value
+        elif isinstance(e, ast.Call):
+            return None            # list(...), sorted(...), reversed(...) are snapshots / other
+        if isinstance(e, (ast.Name, ast.Attribute)):
+            return ast.unparse(e)
+        return None
+
+    @staticmethod
+    def _resizes(body, tgt: str) -> bool:
+        for st in body:
+            for n in ast.walk(st):
+                if isinstance(n, ast.Delete) and any(
+                        isinstance(t, ast.Subscript) and ast.unparse(t.value) == tgt for t in n.targets):
+                    return True
+                if isinstance(n, ast.Call) and isinstance(n.func, ast.Attribute) \
+                        and n.func.attr in ("pop", "popitem", "clear", "remove", "discard", "add") \
+                        and ast.unparse(n.func.value) == tgt:
+                    return True
+        return False
+
+    def _registry_subscript(self, n: ast.Subscript, f: FuncInfo) -> set[str]:
+        """KeyError for  REG[k]  /  REG[v][k]  on a module-level dict of the package unless the
+        key's membership is established on every path (or the error is caught)."""
+        base = n.value
+        while isinstance(base, ast.Subscript):
+            base = base.value
+        if not isinstance(base, ast.Name) or isinstance(n.slice, ast.Slice):
+            return set()
+        if base.id not in REGISTRIES or self._is_local(base.id, f):
+            return set()
+        if self.profile == "faults":
+            return set()
+        from .cfg import cfg_of
+        from .atoms import Atomizer, must_facts
+        try:
+            g = cfg_of(f)
+        except Exception:
+            return set()
+        node = [x for x in g.nodes if x.kind in ("stmt", "test") and any(y is n for y in x.walk())]
+        if not node:
+            return set()
+        at = Atomizer(self.model, f.module, f.cls)
+        facts = must_facts(g, at, node[0])
+        key, cont = ast.unparse(n.slice), ast.unparse(n.value)
+        if (key, "in-expr", cont, True) in facts:
+            return set()
+        if (key, "in-expr", cont, False) in facts:
+            return set()       # unreachable for missing keys in the other sense: store follows
+        self._note(f, n, ["KeyError"], f"{cont}[{key}] without a membership test")
+        return {"KeyError"}
+
     # -- expressions -----------------------------------------------------------
     def _expr(self, e: ast.AST, f: FuncInfo) -> set[str]:
         out: set[str] = set()
@@ -369,6 +435,8 @@ class Effects:
                 out |= self._call(n, f)
             elif isinstance(n, ast.Attribute) and isinstance(n.ctx, ast.Load):
                 out |= self._prop_load(n, f)
+            elif isinstance(n, ast.Subscript) and isinstance(n.ctx, ast.Load):
+                out |= self._registry_subscript(n, f)
         return out
 
     def recv_class(self, e: ast.expr, f: FuncInfo) -> ClassInfo | str | None:
@@ -441,6 +509,10 @@ class Effects:
             self._note(f, c, ["ANY"], f"user callback {name}")
             return {"ANY"}
         full = self._qual_external(fn, f)
+        if self.profile == "faults" and full in FAULT_FUNC_PRIMS:
+            r = set(FAULT_FUNC_PRIMS[full])
+            self._note(f, c, r, f"{full}(...)")
+            return r
         if self.profile == "faults" and full in FUNC_PRIMS:
             return set()
         if full in FUNC_PRIMS:
